@@ -38,6 +38,7 @@ type Stats struct {
 	MaxQuery   time.Duration
 	Fallbacks  int
 	QuickUnknown int
+	HardTimeouts int
 	Errors     []string
 	CrossOK    int
 	CrossDiffs []string
@@ -54,6 +55,7 @@ func (s *Stats) Merge(o *Stats) {
 	}
 	s.Fallbacks += o.Fallbacks
 	s.QuickUnknown += o.QuickUnknown
+	s.HardTimeouts += o.HardTimeouts
 	s.Errors = append(s.Errors, o.Errors...)
 	s.CrossOK += o.CrossOK
 	s.CrossDiffs = append(s.CrossDiffs, o.CrossDiffs...)
@@ -291,7 +293,27 @@ func (s *Solver) checkZ3(pc []*Term, extra *Term, vars []*Term, wantModel bool) 
 		s.Stats.Errors = append(s.Stats.Errors, "z3 write: "+err.Error())
 		return Unknown, nil, "z3"
 	}
-	line, err := s.readLine()
+	// hard watchdog: z3's soft timeout is not honoured inside some tactics
+	type rl struct {
+		l   string
+		err error
+	}
+	ch := make(chan rl, 1)
+	go func() {
+		l, err := s.readLine()
+		ch <- rl{l, err}
+	}()
+	var line string
+	var err error
+	select {
+	case r := <-ch:
+		line, err = r.l, r.err
+	case <-time.After(time.Duration(s.curTimeout+8000) * time.Millisecond):
+		s.Stats.HardTimeouts++
+		s.dead = true
+		s.Close() // kills the process; the reader goroutine ends with an error
+		return Unknown, nil, "z3"
+	}
 	if err != nil {
 		s.dead = true
 		s.Stats.Errors = append(s.Stats.Errors, "z3 read: "+err.Error())
